@@ -347,7 +347,8 @@ JOBS['C15'] = Job('C15', mc='MC_Wire', tag='WIRE', drive='wire-run', trace='Trac
 NT = ('VlanId', 'VlanPcp', 'IpDscp', 'IpEcn', 'IpFragOffset', 'Ipv6FlowLabel', 'MacsecAn', 'MacsecShortLen', 'Qrv')
 
 
-BITFIELD_APIS = ('ipv6.set_dscp', 'ipv6.set_ecn', 'igmp.set_qrv', 'igmp.set_s_flag', 'igmp.set_flags')      # bit-field isolation: C15
+BITFIELD_APIS = ('ipv6.set_dscp', 'ipv6.set_ecn', 'igmp.set_qrv', 'igmp.set_s_flag', 'igmp.set_flags')
+BOTH_APIS = ('macsec.short_len.from_len',)      # a length-taking constructor of a bounded newtype: C14 and C15      # bit-field isolation: C15
 
 
 def fields_tag_props_c14(tag):
@@ -355,7 +356,7 @@ def fields_tag_props_c14(tag):
 
 
 def fields_tag_props_c15(tag):
-    return ['C15'] if tag.split(':')[-1] in NT or tag.split(':')[-1] in BITFIELD_APIS or ':' not in tag else []
+    return ['C15'] if tag.split(':')[-1] in NT or tag.split(':')[-1] in BITFIELD_APIS or tag.split(':')[-1] in BOTH_APIS or ':' not in tag else []
 
 
 JOBS['C14'] = Job('C14', mc='MC_Fields', tag='FIELD', drive='fields-run', trace='Trace_Fields',
